@@ -445,6 +445,7 @@ def tasks(tier, seed):
     for lib in LIBS:
         for sl in range(4): t.append(('c', lib, sl, 4, tier, seed))
     for lib in D_MENU: t.append(('d', lib, tier, seed))
+    if tier == 'thorough': t = F.slice_t3_tasks(t, 1000)
     return t
 
 
